@@ -151,7 +151,9 @@ func runC16b(c c16bCase, st *verifkit.Stats) *verifkit.Failure {
 		models[i] = &c16Model{present: true, committed: map[string]bool{}}
 	}
 	// sent returns the PDUs the client has written to its cache since the last call
-	sent := func(host string) []rtr.RTRMessage {
+	// (expect: a PDU is expected - the first read waits up to three seconds of real time for the loopback to deliver
+	// it, so that a busy machine does not turn a late delivery into a report)
+	sentW := func(host string, expect bool) []rtr.RTRMessage {
 		cn := cacheEnd[host]
 		if cn == nil {
 			return nil
@@ -159,7 +161,11 @@ func runC16b(c c16bCase, st *verifkit.Stats) *verifkit.Failure {
 		var buf []byte
 		tmp := make([]byte, 4096)
 		for {
-			_ = cn.SetReadDeadline(time.Now().Add(2 * time.Millisecond))
+			wait := 2 * time.Millisecond
+			if expect && len(buf) == 0 {
+				wait = 3 * time.Second
+			}
+			_ = cn.SetReadDeadline(time.Now().Add(wait))
 			n, err := cn.Read(tmp)
 			buf = append(buf, tmp[:n]...)
 			if err != nil || n == 0 {
@@ -179,6 +185,7 @@ func runC16b(c c16bCase, st *verifkit.Stats) *verifkit.Failure {
 		}
 		return out
 	}
+	sent := func(host string) []rtr.RTRMessage { return sentW(host, false) }
 	defer func() {
 		for _, cl := range m.clientMap {
 			if cl.timer != nil {
@@ -312,8 +319,8 @@ func runC16b(c c16bCase, st *verifkit.Stats) *verifkit.Failure {
 			// RFC 8210 5.2 / 8.1.3, serial numbers compared as RFC 1982 prescribes: a newer serial is answered with a
 			// Serial Query for the router's own serial, an equal one with nothing
 			if mo.haveSess && !mo.stale && !mo.connGone && op.Session == mo.session && cacheEnd[host] != nil {
-				q := sent(host)
 				newer := int32(op.Serial-mo.serial) > 0
+				q := sentW(host, newer)
 				switch {
 				case op.Serial == mo.serial:
 					if len(q) != 0 {
